@@ -15,6 +15,8 @@ EXPLANATION = """
 R06.1 appends with the document as parent; R06.2 dispatch table facts per insertion mode (from the 330-path normal
 form of step); R06.3 frameset replacement; R06.4 empty text never reaches the sink; R06.5 whitespace classification
 agrees (ASCII) at all sites; R06.6 reviewed normal forms.
+R06.7 frameset documents and reconstructed formatting elements (known finding K1); R06.8 stack-clearing context sets contain
+html and template.
 """
 ASSUMPTIONS = ["the sink creates nodes only when asked (RcDom checked under C20)"]
 TB = "html_tree_builder"
